@@ -25,7 +25,27 @@ class Outcome:
         return z3.And(*self.pc) if len(self.pc) > 1 else self.pc[0]
 
 
-def summarize(interp, thunk, bound=(), pure=True):
+def summarize(interp, thunk, bound=(), pure=True, site=None):
+    """site: hashable identity of the program point; identical (site, path state) pairs are memoized
+    (re-executions of other outer paths reach the same summarization in the same state)."""
+    from .core import _fresh_counter, tid
+    ctx = interp.ctx
+    key = None
+    if site is not None:
+        key = (site, hash(frozenset(ctx.pc_ids)), len(ctx.pc), _fresh_counter[0], tuple(tid(b) for b in bound), ctx.frozen)
+        hit = ctx.summary_cache.get(key)
+        if hit is not None:
+            ctx.stats["summary_hits"] = ctx.stats.get("summary_hits", 0) + 1
+            outs, end_counter = hit
+            _fresh_counter[0] = end_counter
+            return outs
+    outs = _summarize(interp, thunk, bound, pure)
+    if key is not None:
+        ctx.summary_cache[key] = (outs, _fresh_counter[0])
+    return outs
+
+
+def _summarize(interp, thunk, bound=(), pure=True):
     from .interp import _Return, _Break, _Continue
     ctx = interp.ctx
     saved = (ctx.prefix, ctx.trail, ctx.worklist)
@@ -49,7 +69,7 @@ def summarize(interp, thunk, bound=(), pure=True):
             mark = len(ctx.pc)
             ctx.solver.push()
             snap = (dict(ctx.known_tags), set(ctx.wf_done), dict(ctx.ghost), len(ctx.writes), len(ctx.events),
-                    len(ctx.checks), len(ctx.covers))
+                    len(ctx.checks), len(ctx.covers), set(ctx.pc_ids))
             snap_lists = {k: list(v) for k, v in ctx.ghost.items() if isinstance(v, list)}
             out = None
             try:
@@ -74,6 +94,7 @@ def summarize(interp, thunk, bound=(), pure=True):
                 del ctx.pc[mark:]
                 ctx.solver.pop()
                 ctx.known_tags, ctx.wf_done = snap[0], snap[1]
+                ctx.pc_ids = snap[7]
                 g = snap[2]
                 for k, v in snap_lists.items():
                     g[k] = v
